@@ -59,6 +59,8 @@ func (recStream) Send(*pb.XuperMessage) error { return nil }
 type endpoint struct {
 	typ    pb.XuperMessage_MessageType
 	bc, fr string
+	// messages only: log id ("" = "log-<index>", distinct per message) and payload
+	logid, payload string
 }
 
 // spec is the population of one fixture.
@@ -67,15 +69,15 @@ type spec struct {
 }
 
 var subSpec = []endpoint{
-	{pb.XuperMessage_GET_BLOCK, "xuper", ""},
-	{pb.XuperMessage_GET_BLOCK, "", "peerA"},
-	{pb.XuperMessage_POSTTX, "", ""},
+	{typ: pb.XuperMessage_GET_BLOCK, bc: "xuper"},
+	{typ: pb.XuperMessage_GET_BLOCK, fr: "peerA"},
+	{typ: pb.XuperMessage_POSTTX},
 }
 
 var msgSpec = []endpoint{
-	{pb.XuperMessage_GET_BLOCK, "xuper", "peerA"}, // matches s0, s1
-	{pb.XuperMessage_GET_BLOCK, "xuper", "peerB"}, // matches s0
-	{pb.XuperMessage_POSTTX, "other", "peerB"},    // matches s2
+	{typ: pb.XuperMessage_GET_BLOCK, bc: "xuper", fr: "peerA"}, // matches s0, s1
+	{typ: pb.XuperMessage_GET_BLOCK, bc: "xuper", fr: "peerB"}, // matches s0
+	{typ: pb.XuperMessage_POSTTX, bc: "other", fr: "peerB"},    // matches s2
 }
 
 // Header variants of the operation-sequence and schedule enumeration: the
@@ -92,6 +94,11 @@ func numVariants() int { return len(varFrom) * len(varBc) }
 
 func variantSpec(v int) *spec {
 	sp := &spec{subs: subSpec, msgs: append([]endpoint(nil), msgSpec...)}
+	if v >= numVariants() {
+		// twin population: the base population plus message m3, a twin of m0
+		sp.msgs = append(sp.msgs, twinKinds[v-numVariants()].of(sp.ident(0)).endpoint())
+		return sp
+	}
 	sp.msgs[0].fr = varFrom[v%len(varFrom)]
 	sp.msgs[0].bc = varBc[v/len(varFrom)%len(varBc)]
 	return sp
@@ -99,6 +106,9 @@ func variantSpec(v int) *spec {
 
 func variantName(v int) string {
 	sp := variantSpec(v)
+	if v >= numVariants() {
+		return fmt.Sprintf("m3 = twin of m0 (%s) %s", twinKinds[v-numVariants()].name, sp.ident(3))
+	}
 	return fmt.Sprintf("m0[from=%q bc=%q]", sp.msgs[0].fr, sp.msgs[0].bc)
 }
 
@@ -151,10 +161,8 @@ func newFixtureVariant(v int) *fixture {
 		})
 		f.subs = append(f.subs, p2p.NewSubscriber(ctx, s.typ, h, opts...))
 	}
-	for k, m := range f.sp.msgs {
-		msg := p2p.NewMessage(m.typ, &pb.XuperMessage{}, p2p.WithBCName(m.bc), p2p.WithLogId(fmt.Sprintf("log-%d", k)))
-		msg.Header.From = m.fr
-		f.msgs = append(f.msgs, msg)
+	for k := range f.sp.msgs {
+		f.msgs = append(f.msgs, f.sp.ident(k).build())
 	}
 	return f
 }
@@ -257,8 +265,19 @@ func (f *fixture) judge() []string {
 		repeat := false
 		concurrentSame := false
 		windowEdge := false
+		twinRel, twinOf := "", -1
 		for dj, p := range ops {
-			if dj == di || p.kind != "disp" || p.arg != mi {
+			if dj == di || p.kind != "disp" {
+				continue
+			}
+			if !f.sp.same(p.arg, mi) {
+				// a DIFFERENT message (reference: header tuple and payload) that was handled
+				// just before: must not make this one a repeat. Remember how the two relate.
+				if rel := identRelation(f.sp.ident(p.arg), f.sp.ident(mi)); rel != relUnrelated && p.end < o.start && p.err == "" && o.wall.Sub(p.wall) < 1500*time.Millisecond {
+					if twinRel == "" {
+						twinRel, twinOf = rel, p.arg
+					}
+				}
 				continue
 			}
 			if p.end < o.start {
@@ -292,7 +311,9 @@ func (f *fixture) judge() []string {
 					out = append(out, fmt.Sprintf("c20.dispatch.repeat_delivered: a repeat of handled message m%d was delivered to s%d", mi, si))
 				}
 			case covers(regSpans[si], o.start, o.end):
-				if n != 1 {
+				if n == 0 && twinRel != "" {
+					out = append(out, fmt.Sprintf("c20.dedup.distinct_message_dropped_as_repeat.%s: message m%d %s was not handed to s%d (registered and matching during the whole dispatch) after the DIFFERENT message m%d %s had been handled inside the de-duplication window", twinRel, mi, f.sp.ident(mi), si, twinOf, f.sp.ident(twinOf)))
+				} else if n != 1 {
 					out = append(out, fmt.Sprintf("c20.dispatch.not_exactly_once: message m%d was handed %d times to s%d, registered and matching during the whole dispatch", mi, n, si))
 				}
 			case overlaps(maybe[si], o.start, o.end):
@@ -314,6 +335,15 @@ var opNames = []struct {
 	arg  int
 }{
 	{"reg", 0}, {"reg", 1}, {"reg", 2}, {"unreg", 0}, {"unreg", 1}, {"unreg", 2}, {"disp", 0}, {"disp", 1}, {"disp", 2},
+	{"disp", 3}, // twin populations only
+}
+
+// numOps is the size of the operation alphabet of population v.
+func numOps(v int) int {
+	if v >= numVariants() {
+		return len(opNames)
+	}
+	return len(opNames) - 1
 }
 
 func opStr(i int) string { return fmt.Sprintf("%s(%d)", opNames[i].kind, opNames[i].arg) }
@@ -345,11 +375,11 @@ func runOneSequence(v int, idx []int) seqResult {
 	return r
 }
 
-func decodeSeq(c, n int) []int {
+func decodeSeq(c, n, nops int) []int {
 	idx := make([]int, n)
 	for k := 0; k < n; k++ {
-		idx[k] = c % len(opNames)
-		c /= len(opNames)
+		idx[k] = c % nops
+		c /= nops
 	}
 	return idx
 }
@@ -359,16 +389,17 @@ func decodeSeq(c, n int) []int {
 // (own dispatcher each) and are executed by a pool of workers; results are
 // gathered and reported in index order.
 func runSequential(rep *core.Report, n, v0, v1 int, label string) (seqs int, deliveries int) {
-	total := 1
-	for k := 0; k < n; k++ {
-		total *= len(opNames)
-	}
 	outcomes := map[string]bool{}
 	nw := runtime.NumCPU()
 	if nw > 16 {
 		nw = 16
 	}
 	for v := v0; v < v1; v++ {
+		nops := numOps(v)
+		total := 1
+		for k := 0; k < n; k++ {
+			total *= nops
+		}
 		res := make([]seqResult, total)
 		done := make([]bool, total)
 		var next int64 = -1
@@ -385,7 +416,7 @@ func runSequential(rep *core.Report, n, v0, v1 int, label string) (seqs int, del
 					if c%997 == 0 && rep.Expired() {
 						return
 					}
-					res[c] = runOneSequence(v, decodeSeq(c, n))
+					res[c] = runOneSequence(v, decodeSeq(c, n, nops))
 					done[c] = true
 				}
 			}()
@@ -400,12 +431,12 @@ func runSequential(rep *core.Report, n, v0, v1 int, label string) (seqs int, del
 			rep.Add("dispatch.window_edge_dispatches_not_judged", res[c].unjudged)
 			outcomes[fmt.Sprintf("v%d:", v)+res[c].sig] = true
 			for _, m := range res[c].viol {
-				idx := decodeSeq(c, n)
+				idx := decodeSeq(c, n, nops)
 				var names []string
 				for _, o := range idx {
 					names = append(names, opStr(o))
 				}
-				rep.Violation(core.Violation{Key: keyOf(m) + ".sequential", Summary: fmt.Sprintf("%s, after %v: %s", variantName(v), names, m),
+				rep.Violation(core.Violation{Key: partKey(m, ".sequential"), Summary: fmt.Sprintf("%s, after %v: %s", variantName(v), names, m),
 					Case: map[string]interface{}{"part": "dispatch-seq", "ops": idx, "variant": v}})
 			}
 		}
@@ -415,6 +446,17 @@ func runSequential(rep *core.Report, n, v0, v1 int, label string) (seqs int, del
 	}
 	rep.Set("dispatch.sequential_distinct_outcomes"+label, len(outcomes))
 	return
+}
+
+// partKey is the violation key of a judge message: its class plus the part of
+// the enumeration that found it; the de-duplication identity classes carry no
+// part suffix (one defect, one key, whichever part meets it first).
+func partKey(msg, suffix string) string {
+	k := keyOf(msg)
+	if strings.HasPrefix(k, "c20.dedup.") {
+		return k
+	}
+	return k + suffix
 }
 
 func keyOf(msg string) string {
@@ -436,6 +478,21 @@ var concPatterns = []struct {
 	{"disp_then_repeat", []int{0, 1}, [][]int{{6, 6}, {4, 1}}}, // repeat after handled || unregister+register s1
 	{"reg_unreg_disp", []int{}, [][]int{{0, 3}, {6}, {1}}},     // register/unregister s0 || dispatch || register s1
 	{"two_types", []int{0, 2}, [][]int{{6}, {8}, {5}}},         // GET_BLOCK and POSTTX dispatches || unregister s2
+	// twin populations only (op 9 = dispatch m3, the twin of m0)
+	{"twin_then_original", []int{0, 1, 2}, [][]int{{9, 6}, {4, 1}}},  // twin, then m0 || unregister+register s1
+	{"original_then_twin", []int{0, 1, 2}, [][]int{{6, 9}, {3, 0}}},  // m0, then twin || unregister+register s0
+	{"twin_and_original_crossed", []int{0}, [][]int{{6, 9}, {9, 6}}}, // s0 alone; m0, twin || twin, m0
+}
+
+// the first basePatterns patterns run on the base population and the header
+// variants, the others on the twin populations
+const basePatterns = 6
+
+func patternRange(v int) (int, int) {
+	if v >= numVariants() {
+		return basePatterns, len(concPatterns)
+	}
+	return 0, basePatterns
 }
 
 func newConc(pi int) func() vsched.Instance { return newConcVariant(pi, 0) }
@@ -493,7 +550,8 @@ func runConcurrent(rep *core.Report, bound, v0, v1 int) (schedules int, complete
 		go func(v int) {
 			defer wg.Done()
 			defer func() { <-sem }()
-			for pi := range concPatterns {
+			p0, p1 := patternRange(v)
+			for pi := p0; pi < p1; pi++ {
 				x := &vsched.Explorer{New: newConcVariant(pi, v), Bound: bound, Workers: 4, Horizon: 2000, Stop: rep.Expired}
 				x.Explore()
 				cells[v-v0][pi].x = x
@@ -502,9 +560,12 @@ func runConcurrent(rep *core.Report, bound, v0, v1 int) (schedules int, complete
 	}
 	wg.Wait()
 	for v := v0; v < v1; v++ {
-		for pi, p := range concPatterns {
+		p0, p1 := patternRange(v)
+		for pi := p0; pi < p1; pi++ {
+			p := concPatterns[pi]
 			x := cells[v-v0][pi].x
 			schedules += x.Executions
+			rep.Add("dispatch.schedules_by_pattern."+p.Name, x.Executions)
 			if x.Stopped {
 				complete = false
 			}
@@ -518,7 +579,7 @@ func runConcurrent(rep *core.Report, bound, v0, v1 int) (schedules int, complete
 				if v != 0 {
 					sum = variantName(v) + ": " + m
 				}
-				rep.Violation(core.Violation{Key: keyOf(m) + ".concurrent." + p.Name, Summary: sum,
+				rep.Violation(core.Violation{Key: partKey(m, ".concurrent."+p.Name), Summary: sum,
 					Case: map[string]interface{}{"part": "dispatch-conc", "pattern": pi, "variant": v, "schedule": x.Violations[m].Choices}})
 			}
 			if v == 0 {
@@ -533,8 +594,12 @@ func runConcurrent(rep *core.Report, bound, v0, v1 int) (schedules int, complete
 // by the separate -race pass.
 func RacePassBodies(reps int) {
 	for pi := range concPatterns {
+		v := 0
+		if pi >= basePatterns {
+			v = numVariants() // the payload-only twin population
+		}
 		for r := 0; r < reps; r++ {
-			in := newConc(pi)()
+			in := newConcVariant(pi, v)()
 			var wg sync.WaitGroup
 			for _, b := range in.Bodies {
 				wg.Add(1)
